@@ -7,6 +7,7 @@ import re as stdre
 
 from mc import lib, pmodel
 
+CASE_TIMEOUT_S = 600      # wall-clock horizon per state (states of this check bundle many sub-states; generous for loaded machines)
 PROPERTY = 'C13'
 RULE = ('full product: every residue string of length 1..L over {P,E,K} x pre-existing modifications on <=Pm of the '
         'residue/terminal slots x 16 internal rule sets (residue, class, multi-residue, look-behind targets; 1-3 groups of '
